@@ -192,9 +192,38 @@ Theorem C09_column_ops_keep_invariant : forall p val t s, 0 < p -> c_wf p t -> c
 Proof. exact column_ops_keep_wf. Qed.
 Print Assumptions C09_column_ops_keep_invariant.
 
+(* source index = target index (repaired Base_matrix): the column is scaled, which is the dense self-operation *)
+Theorem C09_matrix_self_add_refines : forall p nr m t ct, 0 < p -> 0 <= t -> a_col m t = Some ct ->
+  match a_add p m t t with Some m' => Some (a_abs p nr m') = d_add p (a_abs p nr m) t t | None => False end.
+Proof. exact matrix_self_add_refines. Qed.
+Print Assumptions C09_matrix_self_add_refines.
+
+Theorem C09_matrix_self_mul_target_refines : forall p nr m c t ct, 0 < p -> 0 <= t -> a_col m t = Some ct ->
+  match a_mta p m t c t with Some m' => Some (a_abs p nr m') = d_mta p (a_abs p nr m) t c t | None => False end.
+Proof. exact matrix_self_mul_target_refines. Qed.
+Print Assumptions C09_matrix_self_mul_target_refines.
+
+Theorem C09_matrix_self_mul_source_refines : forall fl p nr m c t ct, 0 < p -> 0 <= t -> a_col m t = Some ct ->
+  match a_msa fl p m c t t with Some m' => Some (a_abs p nr m') = d_msa p (a_abs p nr m) c t t | None => False end.
+Proof. exact matrix_self_mul_source_refines. Qed.
+Print Assumptions C09_matrix_self_mul_source_refines.
+
+(* zero_entry goes through the row dictionary; with or without row access, repaired or not, present or absent entry *)
+Theorem C09_matrix_zero_entry_refines : forall fl p nr m c r x, 0 < p -> 0 <= c -> a_col m c = Some x ->
+  0 <= r < Z.of_nat nr ->
+  (forall k, 0 <= k < Z.of_nat nr -> pget (a_r2i m) (pget (a_i2r m) k) = k) ->
+  match a_zero_entry fl p m c r with Some m' => Some (a_abs p nr m') = d_zero_entry (a_abs p nr m) c r | None => False end.
+Proof. exact matrix_zero_entry_refines. Qed.
+Print Assumptions C09_matrix_zero_entry_refines.
+
+Theorem C09_matrix_zero_column_refines : forall p nr m c x, 0 <= c -> a_col m c = Some x ->
+  match a_zero_col m c with Some m' => Some (a_abs p nr m') = d_zero_col nr (a_abs p nr m) c | None => False end.
+Proof. exact matrix_zero_column_refines. Qed.
+Print Assumptions C09_matrix_zero_column_refines.
+
 (* ---- not proved; compared on every generated history by the correspondence check ---- *)
-(* missing: the same one-step refinement for insertion, removal, zero_entry, zero_column, swap_columns and the scaling
-   used for source = target, and the induction over whole histories *)
+(* missing: the same one-step refinement for insertion, removal and swap_columns, the emptiness tests of the lazy
+   column as a matrix-wide invariant (erased rows are stored rows), and the induction over whole histories *)
 Definition C09_matrix_history_refinement_full : Prop :=
   forall p nr kind m es, prime p -> length (a_i2r m) = nr ->
     a_abs p nr (a_insert (all_fixed false) false kind p m es) = d_insert false p nr (a_abs p nr m) es.
